@@ -84,6 +84,7 @@ type msgSpec struct {
 	PLen  int    `json:"plen"`
 	PSeed uint64 `json:"pseed"`
 	Tx    uint64 `json:"tx"`
+	TMode int    `json:"tmode,omitempty"` // adversarial timestamps: 1 zero time.Time, 2 before 1970, 3 after 2106
 }
 
 type op struct {
@@ -172,7 +173,8 @@ func u64b(x uint64) []byte {
 
 func newEnv(c procCase, reqCap int) *penv {
 	d, ctx := fixtures()
-	e := &penv{d: d, ctx: ctx, ns: atomic.AddUint64(&caseNo, 1), ownKey: ownKeyIdx,
+	atomic.AddUint64(&caseNo, 1)
+	e := &penv{d: d, ctx: ctx, ns: 0, ownKey: ownKeyIdx,
 		byBody: map[string]int{}, setByIdx: map[uint32]*setInfo{}, shadow: map[string][]byte{}, ids: map[string]vaa.VAAID{}}
 	e.govAddr = nsAddr(e.ns, 9) // per-case governance emitter: ids never collide across cases sharing the store
 	e.sendC = make(chan []byte, 4096)
@@ -191,7 +193,18 @@ func newEnv(c procCase, reqCap int) *penv {
 		}
 		e.ids[m.id.ToString()] = m.id
 	}
+	e.wipe()
 	return e
+}
+
+// wipe removes every id of the case from the shared store: cases use a fixed namespace so that a
+// saved case replays bit-identically in a fresh process.
+func (e *penv) wipe() {
+	for _, id := range e.ids {
+		if err := e.d.VerifDelete(id); err != nil {
+			panic(err)
+		}
+	}
 }
 
 func (e *penv) mkMsg(s msgSpec) *msgInfo {
@@ -202,13 +215,23 @@ func (e *penv) mkMsg(s msgSpec) *msgInfo {
 		addr = e.govAddr
 	}
 	m.gov = addr == e.govAddr && chain == govChain
+	ts := time.Unix(int64(s.Ts), s.Nanos)
+	switch s.TMode {
+	case 1:
+		ts = time.Time{}
+	case 2:
+		ts = time.Unix(-int64(s.Ts)-1, s.Nanos)
+	case 3:
+		ts = time.Unix(int64(s.Ts)+(1<<32), s.Nanos)
+	}
+	s.Ts = uint32(ts.Unix())
 	m.body = vh.Body{Timestamp: s.Ts, Nonce: s.Nonce, EmitterChain: s.Chain, TargetChain: s.TC, Emitter: [32]byte(addr), Sequence: s.Seq, CL: s.CL, Payload: vh.Expand(s.PSeed, s.PLen)}
 	m.bodyB = vh.RefBody(m.body)
 	m.digest = vh.RefDigest(m.bodyB)
 	m.hash = hex.EncodeToString(m.digest[:])
 	var tx ethcommon.Hash
 	copy(tx[:], vh.Expand(s.Tx+77, 32))
-	m.pub = &common.MessagePublication{TxHash: tx, Timestamp: time.Unix(int64(s.Ts), s.Nanos), Nonce: s.Nonce, Sequence: s.Seq, ConsistencyLevel: s.CL,
+	m.pub = &common.MessagePublication{TxHash: tx, Timestamp: ts, Nonce: s.Nonce, Sequence: s.Seq, ConsistencyLevel: s.CL,
 		EmitterChain: chain, TargetChain: vaa.ChainID(s.TC), EmitterAddress: addr, Payload: m.body.Payload}
 	m.id = vaa.VAAID{EmitterChain: chain, EmitterAddress: addr, TargetChain: vaa.ChainID(s.TC), Sequence: s.Seq}
 	return m
@@ -325,7 +348,7 @@ func (e *penv) takeLoopbacks(n int) bool {
 
 // ------------------------------------------------------------------ observation builders
 
-var obsKinds = []string{"valid", "valid", "valid", "other-digest", "wrong-addr", "flip-sig", "flip-hash", "flip-addr", "short-sig", "long-sig", "recid", "empty-sig", "empty-hash", "empty-addr", "short-hash", "nil-fields"}
+var obsKinds = []string{"valid", "valid", "valid", "other-digest", "wrong-addr", "claims-own-addr", "claims-member", "flip-sig", "flip-hash", "flip-addr", "short-sig", "long-sig", "recid", "empty-sig", "empty-hash", "empty-addr", "short-hash", "nil-fields"}
 
 func mkObservation(m *msgInfo, other *msgInfo, signer int, kind string, x int) *gossipv1.SignedObservation {
 	digest := m.digest[:]
@@ -340,6 +363,15 @@ func mkObservation(m *msgInfo, other *msgInfo, signer int, kind string, x int) *
 		o.Signature = vh.SignDigest(signer, d[:])
 	case "wrong-addr": // signer claims a different address
 		o.Addr = vh.Addr(signer + 1).Bytes()
+	case "claims-own-addr": // any key signs, but the observation claims to come from this node
+		if signer == ownKeyIdx {
+			signer = 1 + x%40
+			o.Signature = vh.SignDigest(signer, digest)
+		}
+		o.Addr = vh.Addr(ownKeyIdx).Bytes()
+	case "claims-member": // an outsider signs and claims a low-numbered (likely member) address
+		o.Signature = vh.SignDigest(270+x%20, digest)
+		o.Addr = vh.Addr(signer).Bytes()
 	case "flip-sig":
 		o.Signature[x%64] ^= byte(1 << (uint(x) % 8))
 	case "flip-hash":
@@ -458,9 +490,10 @@ func (e *penv) mkInbound(m *msgInfo, kind string, seed uint64) []byte {
 		}
 		return signedVAA(m, set, set.Index, pos)
 	case "index-oob":
-		b := signedVAA(m, set, set.Index, subset(n, q, seed))
-		if q > 0 {
-			b[6+66*(q-1)] = uint8(n)
+		pos := subset(n, q, seed)
+		b := signedVAA(m, set, set.Index, pos)
+		if len(pos) > 0 {
+			b[6+66*(len(pos)-1)] = uint8(n)
 		}
 		return b
 	case "outsider":
@@ -476,8 +509,9 @@ func (e *penv) mkInbound(m *msgInfo, kind string, seed uint64) []byte {
 		b := signedVAA(m, set, set.Index, subset(n, q, seed))
 		return b[:int(seed)%len(b)]
 	case "flip-body":
-		b := signedVAA(m, set, set.Index, subset(n, q, seed))
-		off := 6 + 66*q
+		pos := subset(n, q, seed)
+		b := signedVAA(m, set, set.Index, pos)
+		off := 6 + 66*len(pos)
 		b[off+int(seed)%(len(b)-off)] ^= 1
 		return b
 	}
